@@ -250,7 +250,7 @@ impl Check for E2eCheck {
     }
     fn budget(&self, tier: Tier) -> Budget {
         match tier {
-            Tier::Quick => Budget { runs: 400, max_secs: 60.0 },
+            Tier::Quick => Budget { runs: 3000, max_secs: 50.0 },
             Tier::Thorough => Budget { runs: 200_000, max_secs: 1800.0 },
         }
     }
